@@ -359,7 +359,9 @@ func c13RtspRequests(r *sim.Rng, url string, n int) []C13Item {
 			hdr = ""
 		case 1:
 			hdr += "Transport: " + []string{"", "RTP/AVP/TCP;interleaved=", "RTP/AVP/TCP;interleaved=a-b", "RTP/AVP/TCP;interleaved=0", "RTP/AVP/TCP;interleaved=999999-1000000", "RTP/AVP/TCP;interleaved=-1-0", "RTP/AVP;unicast;client_port=",
-				"RTP/AVP;unicast;client_port=70000-70001", "RTP/AVP;unicast;client_port=5-", "RTP/AVP;unicast;client_port=1-2-3", "RTP/AVP;unicast;client_port=0-0", "RTP/AVP/TCP;unicast;interleaved=0-1", "RTP/AVP;unicast;client_port=20100-20101", "x"}[r.Intn(14)] + "\r\n"
+				"RTP/AVP;unicast;client_port=70000-70001", "RTP/AVP;unicast;client_port=5-", "RTP/AVP;unicast;client_port=1-2-3", "RTP/AVP;unicast;client_port=0-0", "RTP/AVP/TCP;unicast;interleaved=0-1", "RTP/AVP;unicast;client_port=20100-20101", "x",
+				// the key with nothing behind it, the key as a prefix of another word, separators only
+				"RTP/AVP;unicast;client_port", "RTP/AVP/TCP;unicast;interleaved", "RTP/AVP;unicast;client_ports=1-2", "RTP/AVP;client_port;interleaved", ";;;", "RTP/AVP;unicast;client_port=;", "RTP/AVP/TCP;interleaved=0-1;client_port"}[r.Intn(21)] + "\r\n"
 		case 2:
 			hdr += "Content-Length: " + []string{"-1", "0", "5", "99999999", "abc", "18446744073709551616", ""}[r.Intn(7)] + "\r\n"
 		case 3:
@@ -445,7 +447,7 @@ func c13UpstreamRtsp(r *sim.Rng, n int) []C13Item {
 		case 2:
 			hdr += "WWW-Authenticate: " + []string{"", "Basic", `Basic realm="x"`, "Digest", `Digest realm="x"`, `Digest realm="x", nonce="`, `Digest nonce="n", realm="r", algorithm="SHA-256"`, "Foo bar"}[r.Intn(8)] + "\r\n"
 		case 3:
-			hdr += "Transport: " + []string{"", "RTP/AVP/TCP;interleaved=0-1", "RTP/AVP/TCP;interleaved=", "RTP/AVP;unicast;server_port=", "RTP/AVP;unicast;server_port=a-b", "RTP/AVP;unicast;client_port=1-2;server_port=70000-70001", "RTP/AVP;unicast;server_port=6000-6001", "x"}[r.Intn(8)] + "\r\n"
+			hdr += "Transport: " + []string{"", "RTP/AVP/TCP;interleaved=0-1", "RTP/AVP/TCP;interleaved=", "RTP/AVP;unicast;server_port=", "RTP/AVP;unicast;server_port=a-b", "RTP/AVP;unicast;client_port=1-2;server_port=70000-70001", "RTP/AVP;unicast;server_port=6000-6001", "x", "RTP/AVP;unicast;client_port=1-2;server_port", "RTP/AVP/TCP;interleaved", "RTP/AVP;unicast;server_port;client_port"}[r.Intn(11)] + "\r\n"
 		case 4:
 			hdr += "Session: " + []string{"", ";timeout=", "abc;timeout=x", strings.Repeat("s", 5000)}[r.Intn(4)] + "\r\n"
 		case 5:
